@@ -1,0 +1,36 @@
+//go:build verif
+
+package loader
+
+// Contracts for the verification machinery in /verif (comment-only; see /verif/DESIGN.md).
+
+//@ func (*writingReader).Read
+//@   requires buffered [C15]: typeis(w.r, "*bytes.Buffer")
+//@   let vbytes := call[varint.ToUvarint#0]
+//@   call[varint.ToUvarint#0] assert section_length [C15]: arg0 == wrap_u64(wrap_u64(w.len) + len(w.cid))
+//@   call[Writer.Write#0] assert length_prefix_first [C15]: ref(arg1) == ref(vbytes) && ref(arg0) == ref(w.wo.w)
+//@   call[Writer.Write#1] assert then_cid [C15]: len(arg1) == len(w.cid) && ref(arg0) == ref(w.wo.w)
+//@   call[mapupdate#0] assert record [C15]: value.Offset == old(w.wo).size && key == value.Cid
+//@   check size_accounts_for_section [C15]: old(w.wo) != nil && w.wo == nil ==> old(w.wo).size == wrap_u64(old(old(w.wo).size) + wrap_u64(wrap_u64(w.len) + wrap_u64(len(vbytes) + len(w.cid))))
+//@   check written_once [C15]: old(w.wo) == nil ==> w.wo == nil
+
+//@ func (*countingReader).Read
+//@   check counts_bytes_delivered [C15]: c.c.totalRead == wrap_u64(old(c.c.totalRead) + result0)
+
+//@ func TeeingLinkSystem
+//@   closure[0]
+//@     let n0, c, cerr := call[cid.CidFromBytes#0]
+//@     call[maplookup#0] assert dedup_by_cid [C15]: key == c
+//@   end
+
+//@ func CountingLinkSystem
+//@   closure[0]
+//@     let vbytes := call[varint.ToUvarint#0]
+//@     let n, rerr := call[Buffer.ReadFrom#0]
+//@     let lbin := call[Link.Binary#0]
+//@     note l.Binary() is called three times; it is assumed to return the same string each time (assumption same_binary below)
+//@     call[Link.Binary#2] assume same_binary: result == lbin
+//@     call[Link.Binary#1] assume same_binary: result == lbin
+//@     call[varint.ToUvarint#0] assert section_length [C15]: arg0 == wrap_u64(wrap_u64(n) + len(lbin))
+//@     check counts_prefix_and_cid [C15]: err == nil ==> c.totalRead == wrap_u64(old(c.totalRead) + wrap_u64(len(vbytes) + len(lbin)))
+//@   end
